@@ -158,7 +158,7 @@ def replay(rec: Dict[str, Any]) -> List[Tuple[str, Dict[str, Any], str]]:
 def run(chk: Check, tier: str, seed: int) -> None:
     recs: List[Dict[str, Any]] = []
     seen = set()
-    runs = [(4, 1), (4, 2), (3, 3)] if tier == "quick" else [(6, 1), (6, 2), (5, 3), (2, 4)]
+    runs = [(4, 1), (4, 2), (3, 3)] if tier == "quick" else [(6, 1), (6, 2), (4, 3), (1, 4)]
     for maxn, maxops in runs:
         r = tlc("MC_QueryIter", CFG.format(maxn=maxn, maxops=maxops, next="Next", props=PROPS), timeout=3000)
         chk.add_tlc(r)
@@ -167,7 +167,7 @@ def run(chk: Check, tier: str, seed: int) -> None:
             if k not in seen:
                 seen.add(k)
                 recs.append(x)
-    num, depth = (3000, 8) if tier == "quick" else (60000, 11)
+    num, depth = (3000, 8) if tier == "quick" else (40000, 11)
     r = tlc("MC_QueryIter", CFG.format(maxn=6, maxops=depth - 1, next="NextSim", props=""), simulate=(num, depth), seed=seed, workers=1, timeout=3000)
     chk.add_tlc(r)
     for x in r.records:
@@ -178,7 +178,7 @@ def run(chk: Check, tier: str, seed: int) -> None:
     for rec, res in zip(recs, core.pmap(replay, recs)):
         chk.traces += 1
         if len(rec["hist"]) >= 2 and rec["n"] >= 1:
-            chk.nontrivial.add(json.dumps((rec["n"], rec["hist"])))
+            chk.nontrivial.add(hash(json.dumps((rec["n"], rec["hist"]))))
         for sig, case, what in res:
             chk.violation(sig, case, what)
     for rec in recs[len(recs) // 2: len(recs) // 2 + 3] + recs[-2:]:
